@@ -124,6 +124,7 @@ type peerState struct {
 	sensor   bool
 	everUp   bool
 	instances int
+	insts    []*simPeer // every adapter instance of this incarnation (the manager may keep and restart an older one)
 }
 
 // simPeer is a scripted ConvergenceSender (one instance per registration, like a dialled client).
@@ -380,10 +381,11 @@ func (n *nodeSim) stopCore() {
 	})
 	n.core = nil
 	for _, ps := range n.peers[1:] {
-		if ps.inst != nil {
-			ps.inst.dead = true
+		for _, in := range ps.insts {
+			in.dead = true
 		}
 		ps.inst = nil
+		ps.insts = nil
 	}
 }
 
@@ -945,7 +947,7 @@ func (n *nodeSim) opPeerUp(p int) {
 		return
 	}
 	ps := n.peers[p]
-	if ps.up && ps.inst != nil && ps.inst.isStarted() {
+	if ps.up && n.connected(p) {
 		return
 	}
 	ps.up = true
@@ -954,6 +956,7 @@ func (n *nodeSim) opPeerUp(p int) {
 	n.serialNo++
 	inst := &simPeer{n: n, ps: ps, ch: make(chan cla.ConvergenceStatus), addr: fmt.Sprintf("sim://p%d", p), serial: n.serialNo}
 	ps.inst = inst
+	ps.insts = append(ps.insts, inst)
 	ps.upEpoch = n.epoch + 1
 	c := n.core
 	n.inject("peer_up:p"+strconv.Itoa(p), func() { c.RegisterConvergable(inst) })
@@ -972,8 +975,10 @@ func (n *nodeSim) opPeerDown(p int) {
 	n.res.Fault("peer_down")
 	// the adapter notices the loss (like a failing keep-alive) and reports it
 	var insts []*simPeer
-	if ps.inst != nil {
-		insts = append(insts, ps.inst)
+	for _, in := range ps.insts {
+		if in.isStarted() {
+			insts = append(insts, in)
+		}
 	}
 	for _, inst := range insts {
 		in := inst
